@@ -978,7 +978,7 @@ def replay(path):
     case = json.load(open(p))
     rt()
     if "nested" in case:
-        f = nested_case(*case["nested"])
+        f = two_scope_case(*case["nested"][1:]) if case["nested"][0] == "@two-scopes" else nested_case(*case["nested"])
         if f is None:
             print("C19 replay: nested combination %s -> no disagreement (runtime %s)" % (case["nested"], rt().file))
             return 0
@@ -1053,6 +1053,39 @@ def nested_case(outer, inner, decl, off_kind, off_type, byname, fill):
     return None
 
 
+def two_scope_case(kind, tname, first):
+    """Two schema scopes that each define a type called `tname` (as two generated modules do): an aggregate declared by NAME in
+    one scope takes the values of that scope's type and refuses the other scope's, whichever scope was used first.
+    -> None | (sig, detail)"""
+    r = rt()
+    base = {"label": r.S.STRING, "length_measure": r.S.REAL, "count": r.S.INTEGER}[tname]
+    payload = {"label": "a", "length_measure": 1.5, "count": 3}[tname]
+    scopes = {}
+    for sc in ("A", "B"):
+        cls = type(tname, (base,), {})
+        scopes[sc] = (types.SimpleNamespace(**{tname: cls}), cls)
+    order = ["A", "B"] if first == "A" else ["B", "A"]
+    for sc in order:
+        ns, cls = scopes[sc]
+        other = scopes["B" if sc == "A" else "A"][1]
+        for offered, want in ((cls, True), (other, False)):
+            agg = r.kinds[kind](1, 2, tname, scope=ns)
+            v = offered(payload)
+            try:
+                if kind in ("ARRAY", "LIST"):
+                    agg[1] = v
+                else:
+                    agg.add(v)
+                ok = True
+            except Exception:
+                ok = False
+            if ok != want:
+                return ("two-scopes|%s|%s" % (kind, "unexpected-accept" if ok else "unexpected-reject"),
+                        "%s [1:2] OF '%s' declared in scope %s (scope %s used first): value of scope %s's %s %s" % (
+                            kind, tname, sc, order[0], "its own" if want else "the other", tname, "ACCEPTED" if ok else "REFUSED"))
+    return None
+
+
 def nested_grid(ev):
     """every (outer kind, inner kind, declared element type) x offered (inner kind, element type) on which EXPRESS and the
     runtime's class relation agree; -> list of failures"""
@@ -1074,6 +1107,14 @@ def nested_grid(ev):
                                 ev.bump("nested:%s-OF-%s:%s" % (outer, inner, "same-type" if (off_kind == inner and off_type == decl) else ("other-kind" if off_kind != inner else "other-element-type")))
                                 if f:
                                     fails.append({"sig": f[0], "detail": f[1], "nested": [outer, inner, decl, off_kind, off_type, byname, fill]})
+    for kind in ("ARRAY", "LIST", "BAG", "SET"):
+        for tname in ("label", "length_measure", "count"):
+            for first in ("A", "B"):
+                n += 1
+                ev.bump("two-scopes:%s" % kind)
+                f = two_scope_case(kind, tname, first)
+                if f:
+                    fails.append({"sig": f[0], "detail": f[1], "nested": ["@two-scopes", kind, tname, first]})
     return n, fails
 
 
